@@ -52,7 +52,7 @@ var pkgNames = map[string]string{
 // ---------------------------------------------------------------- descriptions
 
 type gty struct {
-	K        string `json:"k"` // basic|named|ptr|slice|array|map|func
+	K        string `json:"k"` // basic|named|ptr|slice|array|map|func (|chan: generator only, outside the quantifier)
 	Name     string `json:"name,omitempty"`
 	Pkg      string `json:"pkg,omitempty"` // import path of a named type, "" = universe
 	PkgName  string `json:"pkgname,omitempty"`
@@ -159,6 +159,8 @@ func canon(t *gty) string {
 		return "map[" + canon(t.Key) + "]" + canon(t.Elem)
 	case "func":
 		return "func" + canonSig(t.Ps, t.Variadic, t.Rs)
+	case "chan":
+		return "chan " + canon(t.Elem)
 	}
 	return "?"
 }
@@ -221,6 +223,8 @@ func (fp *filePrinter) ty(t *gty) string {
 		return "map[" + fp.ty(t.Key) + "]" + fp.ty(t.Elem)
 	case "func":
 		return "func" + fp.sig(t.Ps, t.Variadic, t.Rs)
+	case "chan":
+		return "chan " + fp.ty(t.Elem)
 	}
 	panic("bad type kind " + t.K)
 }
